@@ -50,6 +50,7 @@ def build_rtf(seed: int, feature: str | None = None, twin: bool = False):
     brk_rng = random.Random(f"rtf-breaks:{seed}")
     fn_rng = random.Random(f"rtf-footnotes:{seed}")
     esc_rng = random.Random(f"rtf-escapes:{seed}")
+    tbl_rng = random.Random(f"rtf-rows:{seed}")
     pos = 0   # source page position (a blank page occupies a position)
     for p in range(n_pages):
         def w(cls, lo=1, hi=3):
@@ -121,7 +122,9 @@ def build_rtf(seed: int, feature: str | None = None, twin: bool = False):
                         cells.append(" ".join(t) + "\\cell")
                         grow.append({"toks": t})
                 sep = " " if one_line else "\n"
-                xml.append("\\trowd" + cellx + "\\pard\\intbl " + sep.join(cells) + sep + "\\row\n")
+                # what stands between \row and the next \trowd is the writer's choice: a line end, a blank, nothing at all
+                row_end = "\n" if i == rows - 1 else tbl_rng.choice(["\n", "\n", " ", "", "\r\n"])
+                xml.append("\\trowd" + cellx + "\\pard\\intbl " + sep.join(cells) + sep + "\\row" + row_end)
                 grid.append(grow)
             return "".join(xml), grid
 
